@@ -15,6 +15,7 @@ from typing import Any, Callable, List, Optional
 
 import z3
 
+MAX_DECISIONS_PER_PATH = int(os.environ.get("SYMTDF_MAX_DECISIONS", "6000"))
 _DEBUG_SLOW = float(os.environ.get("SYMTDF_DEBUG_SLOW", "0") or 0)
 QUERY_TIMEOUT_MS = int(os.environ.get("SYMTDF_QUERY_TIMEOUT_MS", "30000"))
 
@@ -393,6 +394,8 @@ def branch(cond) -> bool:
     if k is not None:
         return k
     c.stats.branches += 1
+    if c.stats.branches > MAX_DECISIONS_PER_PATH:
+        raise Inconclusive(f"more than {MAX_DECISIONS_PER_PATH} decisions on one path (unbounded loop over a symbolic quantity?)")
     if c.pos < len(c.prefix):
         d = c.prefix[c.pos]
         c.pos += 1
@@ -1109,6 +1112,9 @@ def explore(fn, make_inputs, max_paths: int = 100000, witness_policy=None, stop_
         if res.failed:
             nfail += 1
         work.extend(c.pending)
+        # shallowest alternative first: when a loop with a symbolic trip count unrolls
+        # without end, its early exits are reached before its deep unrollings
+        work.sort(key=len, reverse=True)
         if len(results) >= max_paths:
             r = PathResult()
             r.status = "inconclusive"
